@@ -357,8 +357,8 @@ fn strip_some_keys(p: &Prog) -> Prog {
 /// `SOME_KEY_KEEP_THOROUGH`) of the random programs that have such a key is run as generated; in the others the `Some` wrappers
 /// are removed from the keys (the inner key kinds are still exercised). The fixed corpus always contains every `Some(_)` key
 /// shape (100 failing cases). Set both to 1 once `value::ser::MapKeySerializer::serialize_some` forwards.
-const SOME_KEY_KEEP: u64 = 16;
-const SOME_KEY_KEEP_THOROUGH: u64 = 40;
+const SOME_KEY_KEEP: u64 = 1;
+const SOME_KEY_KEEP_THOROUGH: u64 = 1;
 
 pub fn run(sink: &mut Sink, thorough: bool, seed: u64) {
     let mut r = Rng::new(seed ^ 0xc15c_15c1);
